@@ -613,11 +613,22 @@ def g12(rep):
                     if a in owner and b in owner and owner[a] == owner[b] and ("next", owner[a]) in owner:
                         owner[v] = owner[("next", owner[a])]; changed = True
     n = 0
+    par = common.parents(fn["body"])
     for lp in walk(fn["body"]):
-        if lp["k"] != "ForStmt" or not any((y.get("mac") or "") == "QmInfoClearMark" for y in walk(lp["c"][-1])) or \
-                any(y["k"] == "ForStmt" for y in walk(lp["c"][-1])):
+        if lp["k"] not in ("ForStmt", "WhileStmt") or not any((y.get("mac") or "") == "QmInfoClearMark" for y in walk(lp["c"][-1])) or \
+                any(y["k"] in ("ForStmt", "WhileStmt") for y in walk(lp["c"][-1])):
             continue
-        init, cond = strip(lp["c"][0]), strip(lp["c"][-3])
+        if lp["k"] == "ForStmt":
+            init, cond = strip(lp["c"][0]), strip(lp["c"][-3])
+        else:
+            cond = strip(lp["c"][0])
+            init = None
+            pp = par.get(lp["id"])
+            if pp is not None and pp["k"] == "CompoundStmt":
+                sts_ = [y for y in pp["c"] if y is not None]
+                k_ = next(i for i, y in enumerate(sts_) if y is lp)
+                if k_ > 0:
+                    init = strip(sts_[k_ - 1])
         if init is None or cond is None or init["k"] != "BinaryOperator" or cond["k"] != "BinaryOperator" or cond["op"] != "<":
             raise AnalysisBroken("stoGcSweepMixed: a mark-clearing loop that is not `for (qi = S; qi < E; qi++)`")
         start = (strip(init["c"][1]) or {}).get("n")
